@@ -14,6 +14,8 @@ import Chewing.Proofs.TrieEntriesRuns
 import Chewing.Proofs.TrieBuild
 import Chewing.Proofs.TrieFirstN
 import Chewing.Proofs.TrieValidWrite
+import Chewing.Proofs.TrieOrderIndep
+import Chewing.Proofs.TrieOrderIndepPerm
 /-!
 # C11 — A trie dictionary file returns exactly what was put in, in the documented order
 
@@ -95,7 +97,10 @@ def leafOut (g : List Nat × List Phrase) : List Phrase := sortLeaf g.2
       `lookup_first_phrase` its first element;
     * enumeration yields exactly the inserted set, each (key, phrase) once;
     * the bytes conform to the documented format.
-    (`deterministic` — equal input, identical bytes — is the functionality of `write`.) -/
+    ("equal input gives byte-identical files", the input being a SET of entries with the documented within-key
+    order: `order_independent` — the bytes are a function of the metadata and the map key ↦ inserted phrase vector,
+    whatever the order in which different keys were inserted; `deterministic` is the literal functionality of
+    `write`.) -/
 def C11_full : Prop :=
   ∀ (info : Info) (es : List Entry), ValidInput info es →
     ((TrieCodec.Builder.ofEntries info es).Fits → (TrieCodec.Builder.ofEntries info es).write.isSome = true) ∧
@@ -156,6 +161,56 @@ theorem phrase_seq_roundtrip (ps : List Phrase) (hv : ∀ p ∈ ps, ValidPhrase 
 theorem deterministic (info info' : Info) (es es' : List Entry) (hi : info = info') (he : es = es') :
     (TrieCodec.Builder.ofEntries info es).write = (TrieCodec.Builder.ofEntries info' es').write := by
   subst hi; subst he; rfl
+
+/-- **`order_independent`** — "equal input gives byte-identical files" for the input the property speaks of, a finite
+    SET of entries: the written bytes (and whether `write` succeeds at all) depend only on the metadata and on the map
+    key ↦ inserted phrase vector (`inserted`: the phrases of the key in insertion order, a re-inserted phrase replacing
+    the earlier one where it stood) — NOT on the order in which different keys were inserted, although the builder keeps
+    every node's children in first-insertion order and the two trees differ.  No validity hypothesis is needed.
+    (Proof, `Proofs/TrieOrderIndep.lean`: reachable trees have distinct sibling syllables and no dead node
+    (`Good_ofEntries`); two such trees with the same `find` have, level by level, the same children once these are
+    sorted by syllable (`kids_rel`), which is all the breadth-first loop of `write` looks at (`writeLoop_congr`).) -/
+theorem order_independent (info : Info) (es es' : List Entry) (h : ∀ k, inserted es k = inserted es' k) :
+    (TrieCodec.Builder.ofEntries info es).write = (TrieCodec.Builder.ofEntries info es').write :=
+  write_ofEntries_ext info es es' h
+
+/-- the same for arbitrary builders with the shape invariant of reachable ones: the bytes are a function of
+    `(info, find)` -/
+theorem bytes_function_of_map (b b' : TrieCodec.Builder) (hg : b.kids.Good) (hg' : b'.kids.Good)
+    (hi : b.info = b'.info) (h : ∀ k, b.find k = b'.find k) : b.write = b'.write := write_ext b b' hg hg' hi h
+
+/-- every rearrangement of the inserts that keeps, for every key, the inserts of that key in their order gives
+    identical bytes (`SameKeyOrder es es'`: for every key `k`, `es.filter (·.1 == k) = es'.filter (·.1 == k)`) -/
+theorem same_key_order_same_bytes (info : Info) (es es' : List Entry) (h : SameKeyOrder es es') :
+    (TrieCodec.Builder.ofEntries info es).write = (TrieCodec.Builder.ofEntries info es').write :=
+  order_independent info es es' (fun k => refFind_sameKeyOrder h k)
+
+/-- **`perm_same_bytes`** — any permutation of the inserts generated by swapping ADJACENT inserts with DIFFERENT keys
+    (`KeySwap`, inductively defined: reflexive, transitive, one swap anywhere in the list) gives identical bytes … -/
+theorem perm_same_bytes (info : Info) (es es' : List Entry) (h : KeySwap es es') :
+    (TrieCodec.Builder.ofEntries info es).write = (TrieCodec.Builder.ofEntries info es').write :=
+  same_key_order_same_bytes info es es' h.sameKeyOrder
+
+/-- … and these are exactly the permutations that keep the relative order of the inserts with the same key -/
+theorem keySwap_characterised (es es' : List Entry) :
+    KeySwap es es' ↔ ∀ k, es.filter (fun e => e.1 == k) = es'.filter (fun e => e.1 == k) := keySwap_iff es es'
+
+theorem keySwap_is_permutation (es es' : List Entry) (h : KeySwap es es') : es.Perm es' := h.perm
+
+/-- two single characters under one key, in the two possible orders: the same entry SET … -/
+def withinKeyA : List Entry := [([10268], { text := [28204], freq := 1 }), ([10268], { text := [20874], freq := 1 })]
+def withinKeyB : List Entry := [([10268], { text := [20874], freq := 1 }), ([10268], { text := [28204], freq := 1 })]
+
+/-- **the hypothesis of `order_independent` is exact**: the order of the inserts WITHIN a key matters where the
+    property says so (single characters keep their insertion order) — `withinKeyA` and `withinKeyB` are valid inputs
+    holding the same entries (one is the reverse of the other), both are written successfully, and the bytes differ -/
+theorem within_key_order_matters :
+    withinKeyB = withinKeyA.reverse ∧ withinKeyA.Perm withinKeyB ∧
+    ((TrieCodec.Builder.ofEntries {} withinKeyA).write).isSome = true ∧
+    ((TrieCodec.Builder.ofEntries {} withinKeyB).write).isSome = true ∧
+    (TrieCodec.Builder.ofEntries {} withinKeyA).write ≠ (TrieCodec.Builder.ofEntries {} withinKeyB).write ∧
+    inserted withinKeyA [10268] ≠ inserted withinKeyB [10268] := by
+  refine ⟨rfl, List.Perm.swap _ _ _, by decide, by decide, by decide, by decide⟩
 
 /-- `insert` is a map update: the phrase replaces the stored phrase with the same text where it
     stood, or is appended; other keys are untouched -/
@@ -534,6 +589,24 @@ example : inserted sampleEntries [10268] = some [{ text := [28204], freq := 9 },
 
 /-- the sample file read back by the model's reader -/
 def sampleTrie : Option Trie := ((TrieCodec.Builder.ofEntries {} sampleEntries).write).bind openTrie
+
+-- `order_independent` / `perm_same_bytes` are not vacuous: the sample with its inserts rearranged (the second key first,
+-- the three inserts of the first key in their order) is a different insert sequence with the same map — and the same bytes
+def sampleRearranged : List Entry :=
+  [([10268, 8708], { text := [28204, 35430], freq := 100, lastUsed := some 5 }), ([10268], { text := [28204], freq := 1 }),
+   ([10268], { text := [20874], freq := 70000 }), ([10268], { text := [28204], freq := 9 })]
+
+example : KeySwap sampleEntries sampleRearranged :=
+  KeySwap.swap [] _ ([10268], { text := [28204], freq := 1 }) _ (by decide)
+example : sampleEntries ≠ sampleRearranged := by decide
+example : (TrieCodec.Builder.ofEntries {} sampleEntries).write = (TrieCodec.Builder.ofEntries {} sampleRearranged).write :=
+  perm_same_bytes {} _ _ (KeySwap.swap [] _ ([10268], { text := [28204], freq := 1 }) _ (by decide))
+-- two different keys below one node, inserted in the two orders: the builder trees differ (children in insertion
+-- order), the bytes do not
+example : (TrieCodec.Builder.ofEntries {} [([3], { text := [65], freq := 1 }), ([2], { text := [66], freq := 1 })]).kids.toItems.map Item.syl
+    = [3, 2] ∧
+    (TrieCodec.Builder.ofEntries {} [([2], { text := [66], freq := 1 }), ([3], { text := [65], freq := 1 })]).kids.toItems.map Item.syl
+    = [2, 3] := by decide
 
 -- exact lookup: the re-inserted 測 (freq 9) kept its place before 冊; single characters in insertion order
 example : (sampleTrie.map fun t => lookupAll t [10268] .standard) =
